@@ -38,6 +38,9 @@ type ReadCfg struct {
 	OnInter      int // 0 none 1 read all 2 read nothing 3 read part
 	SeedMsgs     bool
 	NoDiscard    bool // the application always reads units to their end
+	// MustRead, if set, says which units (by index of top-level unit handed
+	// over by NextFrame) must be read to their end.
+	MustRead func(unit int) bool
 }
 
 func (c ReadCfg) Name() string {
@@ -239,12 +242,27 @@ func appReader(r *eng.Run, p *Pipe, cfg ReadCfg, o *Outcome) {
 		if h.OpCode.IsControl() {
 			rec.Kind = 'C'
 		}
-		if !readUnit(r, p, rd, rd.Discard, rec, o, !cfg.NoDiscard) {
+		allow := !cfg.NoDiscard
+		if allow && cfg.MustRead != nil && cfg.MustRead(len(topLevel(o.Recs))) {
+			allow = false
+		}
+		if !readUnit(r, p, rd, rd.Discard, rec, o, allow) {
 			return
 		}
 		rec.EndAt = p.Consumed()
 		o.Recs = append(o.Recs, *rec)
 	}
+}
+
+// topLevel filters the units handed over by NextFrame (not by callbacks).
+func topLevel(recs []Rec) []Rec {
+	var out []Rec
+	for _, x := range recs {
+		if x.Kind != 'I' {
+			out = append(out, x)
+		}
+	}
+	return out
 }
 
 func appNextReader(r *eng.Run, p *Pipe, cfg ReadCfg, o *Outcome) {
